@@ -237,7 +237,13 @@ impl Prop for Iter {
             if let (Some(h), Some(sk)) = (w["base_hex"].as_str(), w["skip"].as_array()) {
                 let bytes = crate::props::c03::hex_decode(h)?;
                 let skip: Vec<u32> = sk.iter().filter_map(|x| x.as_u64().map(|v| v as u32)).collect();
-                return Some(self.c25_eval(&bytes, "witness", skip, w["pre_import"].as_bool().unwrap_or(false), false));
+                let pre = match (w["pre"].as_str(), w["pre_import"].as_bool()) {
+                    (Some("built_fn"), _) => "built_fn",
+                    (Some("replace_import"), _) => "replace_import",
+                    (Some("add_import_func"), _) | (_, Some(true)) => "add_import_func",
+                    _ => "none",
+                };
+                return Some(self.c25_eval(&bytes, "witness", skip, pre, false));
             }
         }
         match (w["seed"].as_u64(), w["idx"].as_u64()) {
@@ -274,10 +280,19 @@ impl Iter {
         };
         let locals: Vec<u32> = (0..raw.funcs.len() as u32).map(|k| raw.n_imp_funcs + k).collect();
         let skip = random_skip(&mut rng, &locals, raw.n_imp_funcs);
-        self.c25_eval(&g.bytes, g.profile, skip, idx % 5 == 4, want_sample)
+        // edits made before the iterator is created (2 cases in 5): an added import, a function built with FunctionBuilder
+        // (part of the body through inject_all), an imported function replaced by a built one
+        let pre = match idx % 10 {
+            4 => "add_import_func",
+            9 | 3 => "built_fn",
+            7 => "replace_import",
+            _ => "none",
+        };
+        self.c25_eval(&g.bytes, g.profile, skip, pre, want_sample)
     }
 
-    fn c25_eval(&self, base: &[u8], profile: &str, skip: Vec<u32>, pre_import: bool, want_sample: bool) -> CaseOut {
+    fn c25_eval(&self, base: &[u8], profile: &str, skip: Vec<u32>, pre: &'static str, want_sample: bool) -> CaseOut {
+        let pre_import = pre == "add_import_func";
         let mut out = CaseOut::default();
         struct G<'x> {
             bytes: &'x [u8],
@@ -297,7 +312,44 @@ impl Iter {
         out.ob(format!("skip-shape:{}", shape));
         out.fp = fnv_mix(fnv(g.bytes), fnv(format!("{:?}", skip).as_bytes()));
         out.nontrivial = locals.is_empty() || (locals.len() >= 2 && !skip.is_empty());
-        let exp = expected_visits(&raw, 0, &skip);
+        let mut exp = expected_visits(&raw, 0, &skip);
+        use wasmparser::Operator as WO;
+        let built_ops: Vec<WO<'static>> = vec![WO::I32Const { value: 7 }, WO::Drop, WO::Nop, WO::Nop, WO::I32Const { value: 8 }, WO::Drop, WO::End];
+        let as_visits = |fid: u32, ops: &[WO<'static>]| -> Vec<Visit> { ops.iter().enumerate().map(|(i, o)| (0u32, fid, i, i + 1 == ops.len(), op_bytes(o))).collect() };
+        // the function import that is replaced: (ImportsID, FunctionID)
+        let mut replaced: Option<(u32, u32)> = None;
+        match pre {
+            "built_fn" => {
+                out.ob("pre-edit:built-function(inject_all)+finish_module");
+                let fid = raw.n_imp_funcs + raw.funcs.len() as u32;
+                if !skip.contains(&fid) {
+                    exp.extend(as_visits(fid, &built_ops));
+                }
+            }
+            "replace_import" => {
+                let mut k = 0u32;
+                let mut cands = vec![];
+                for (i, imp) in raw.imports.iter().enumerate() {
+                    if imp.kind == "func" {
+                        cands.push((i as u32, k));
+                        k += 1;
+                    }
+                }
+                if !cands.is_empty() {
+                    let c = cands[(fnv(g.bytes) % cands.len() as u64) as usize];
+                    replaced = Some(c);
+                    out.ob(if c.0 != c.1 { "pre-edit:replace_import(non-function import in front)" } else { "pre-edit:replace_import" });
+                    if !skip.contains(&c.1) {
+                        // the new local function keeps the function id of the import: it is visited first (function order)
+                        let mut v = as_visits(c.1, &[WO::I32Const { value: 9 }, WO::Drop, WO::End]);
+                        // among replaced imports and locals the order is by function id
+                        v.extend(exp.drain(..));
+                        exp = v;
+                    }
+                }
+            }
+            _ => {}
+        }
         out.obn("visits_expected", exp.len() as u64);
         let bytes = g.bytes.to_vec();
         let skip_ids: Vec<FunctionID> = skip.iter().map(|s| FunctionID(*s)).collect();
@@ -311,6 +363,31 @@ impl Iter {
                 // an import added before the iterator is created: the local functions keep their ids until the module is encoded
                 m.add_import_func("pre".to_string(), "added".to_string(), wirm::ir::id::TypeID(t));
             }
+            if pre == "built_fn" {
+                use wirm::opcode::{Inject, Opcode};
+                let mut fb = wirm::ir::function::FunctionBuilder::new(&[], &[]);
+                fb.i32_const(7);
+                fb.drop();
+                fb.inject_all(&[WO::Nop, WO::Nop]);
+                fb.i32_const(8);
+                fb.drop();
+                fb.finish_module(&mut m);
+            }
+            if let Some((imports_id, _)) = replaced {
+                use wirm::opcode::Opcode;
+                let ty = match m.imports.get(wirm::ir::id::ImportsID(imports_id)).ty {
+                    wasmparser::TypeRef::Func(t) => t,
+                    _ => return Err("import is not a function".to_string()),
+                };
+                let (p, r) = match m.types.get(wirm::ir::id::TypeID(ty)) {
+                    Some(t) => (t.params(), t.results()),
+                    None => return Err("import type not found".to_string()),
+                };
+                let mut fb = wirm::ir::function::FunctionBuilder::new(&p, &r);
+                fb.i32_const(9);
+                fb.drop();
+                fb.replace_import_in_module(&mut m, wirm::ir::id::ImportsID(imports_id));
+            }
             let mut it = ModuleIterator::new(&mut m, &skip_ids);
             let first = walk_module(&mut it);
             it.reset();
@@ -318,8 +395,8 @@ impl Iter {
             Ok::<_, String>((first, second))
         });
         let detail = |extra: serde_json::Value| {
-            json!({"skip": skip, "local_functions": locals, "body_lengths": raw.funcs.iter().map(|f| f.ops.len()).collect::<Vec<_>>(),
-                   "what": extra, "explicit_witness": {"base_hex": bytes_hex(g.bytes), "skip": skip, "pre_import": pre_import}})
+            json!({"skip": skip, "local_functions": locals, "pre": pre, "body_lengths": raw.funcs.iter().map(|f| f.ops.len()).collect::<Vec<_>>(),
+                   "what": extra, "explicit_witness": {"base_hex": bytes_hex(g.bytes), "skip": skip, "pre": pre}})
         };
         match r {
             Err(p) => out.violate(format!("{}:{}", shape, p.sig()), detail(json!({"panic": p.json()}))),
@@ -735,7 +812,7 @@ fn lower_set_and_inject(it: &mut ComponentIterator, inj: &Inj) {
             it.empty_block_alt();
             return;
         }
-        Mode::ClearBefore | Mode::ClearAfter | Mode::ClearAlt => return,
+        Mode::ClearBefore | Mode::ClearAfter | Mode::ClearAlt | Mode::ClearSemAfter | Mode::ClearBlockEntry | Mode::ClearBlockExit => return,
     }
     for o in lower::probe_ops_for(inj) {
         it.inject(o);
